@@ -15,19 +15,26 @@ EXACT = {'RunoffCoefficient'}
 CORPUS = os.path.join(VERIF, 'corpus', 'C10')
 
 
-def finding_key(model, ps, klass):
-    """Key under which a failure of this (model, parameters, failure class) may be listed in
-    known_findings.txt.  The two Sacramento keys carry the exact trigger predicate of a
-    defect that the faithful model reproduces and for which a `_refuted` theorem is proved
-    (KernelProofs/Sacramento.v); everything else gets a key that matches no finding."""
-    if model == 'Sacramento':
-        lztwm, lzfsm, lzfpm = ps[5], ps[6], ps[7]
-        if lztwm < 10.0:
-            # adimc overshoots uztwm+lztwm when 2*pinc > lztwm (pinc <= 5 mm), then diverges
-            return 'sacramento-lztwm-below-10'
-        if lzfpm > lzfsm and klass in ('bounds', 'balance'):
-            # percs < 0 needs fracp = hpl*2*ratlp/(ratlp+ratls) > 1, possible only when hpl > 1/2
-            return 'sacramento-fracp-unguarded'
+def finding_key(cs, bad, ri):
+    """Key under which a failure may be listed in known_findings.txt.  For Sacramento the trigger
+    predicate of the two recorded defects is evaluated EXACTLY: the SACTRACE command re-runs a copy
+    of the current sacramento() (regenerated from /repo on every run, arithmetic unchanged) that
+    records the first time step at which (a) ratio < -1 or adimc > uztwm+lztwm, (b) fracp > 1 --
+    the situations that the guards of the original Fortran code exclude.  The events count only if
+    the copy's outputs are bit-identical to sim.Catalog's on this case and the event does not come
+    after the failure.  Everything else gets a key that matches no finding."""
+    model, klass, msg = cs['model'], bad[0], bad[1]
+    if model == 'Sacramento' and ri is not None and ri[0] == 'OK':
+        tr = sactrace(cs['ps'], cs['st0'], cs['rain'], cs['pet'])
+        if tr is not None and kresults_agree(ri, tr[1]) is None:
+            ev = tr[0]
+            m = re.search(r't=(\d+)', msg)
+            tfail = int(m.group(1)) if m else len(cs['rain'])
+            adimc_ev = [t for t in (ev['ratioNeg'], ev['adimcOver']) if t >= 0]
+            if adimc_ev and min(adimc_ev) <= tfail:
+                return 'sacramento-adimc-unguarded'
+            if 0 <= ev['fracpOver'] <= tfail:
+                return 'sacramento-fracp-unguarded'
     return '%s-%s' % (model.lower(), klass)
 
 
@@ -35,6 +42,7 @@ def main():
     c = Check('C10')
     c.prove()
     build_driver()
+    gen_sactrace()
     build_harness(['owrun'])
     rng = c.rng
     quick = c.tier == 'quick'
@@ -113,14 +121,14 @@ def main():
                     'rainfall': cs['rain'], 'pet': cs['pet'], 'case_line': lines[i]}
             if ri[0] != 'OK':
                 desc.update({'failure': 'crash-on-valid-input', 'impl': li[:300]})
-                c.violation('oracle_%s_%s_%d.json' % (tag, m, i), desc, key=finding_key(m, cs['ps'], 'crash'))
+                c.violation('oracle_%s_%s_%d.json' % (tag, m, i), desc, key=finding_key(cs, ('crash', ''), None))
                 finals.append(None)
                 continue
             finals.append(ri[2])
             bad = ORACLES[m](cs['ps'], cs['st0'], cs['rain'], cs['pet'], ri[1], ri[2])
             if bad:
                 desc.update({'failure': bad[0], 'message': bad[1], 'runoff_head': ri[1][0][:12], 'final_states': ri[2]})
-                key = finding_key(m, cs['ps'], bad[0])
+                key = finding_key(cs, bad, ri)
                 if not c.violation('oracle_%s_%s_%d.json' % (tag, m, i), desc, key=key):
                     nknown[key] = nknown.get(key, 0) + 1
             if i % 211 == 0:
